@@ -39,7 +39,7 @@ M = [
  ('macro_add_variant_sub', Mc, 'FAIL', "                &self + rhs\n", "                &self - rhs\n"),
  ('macro_mul_assign_noop', Mc, 'FAIL', "                *self *= &rhs;\n", "                *self += &rhs;\n"),
 ]
-R = '/tmp/sg/mrepo'; W = '/verif/.work/sg/mut'
+R = os.environ.get('SG_MREPO', '/tmp/sg/mrepo'); W = '/verif/.work/sg/mut'
 os.makedirs(R + '/curve25519-dalek/src', exist_ok=True); os.makedirs(W, exist_ok=True)
 tplsrc = open('/verif/contracts/sg.vx').read()
 only = sys.argv[1:]
@@ -66,7 +66,7 @@ for name, which, expect, a, b in M:
     if r.returncode != 0:
         print('%-26s expect %-16s vx exit %d (undecided): %s' % (name, expect, r.returncode, (r.stdout + r.stderr).strip()[-200:])); continue
     t0 = time.time()
-    r = subprocess.run(['timeout', '900', 'verus', out, '--rlimit', '100', '--triggers-mode', 'silent', '--multiple-errors', '4'], capture_output=True, text=True)
+    r = subprocess.run(['timeout', '900', 'verus', out, '--rlimit', '100', '--triggers-mode', 'silent', '--multiple-errors', '2'], capture_output=True, text=True)
     dt = time.time() - t0
     o = r.stdout + r.stderr
     res = [l for l in o.splitlines() if 'verification results' in l]
